@@ -21,5 +21,27 @@ let handle = function
       let parents v = let i = int_of_nat v in if i < n then List.map nat_of_int d.(i) else [] in
       (match can_fast_forward parents (fun _ -> O) (nat_of_int n) (lca_fuel (nat_of_int n) [O]) (nat_of_int (int_of_string c1)) (nat_of_int (int_of_string c2)) with
        | None -> "fuel" | Some b -> if b then "1" else "0")
+  | ["walk"; dag; stamps; inc] ->
+      (* date-ordered walk without excludes; ties are broken towards the smaller commit number *)
+      let d = parse_dag dag in
+      let n = Array.length d in
+      let st = Array.of_list (List.map int_of_string (String.split_on_char ',' stamps)) in
+      let parents v = let i = int_of_nat v in if i < n then List.map nat_of_int d.(i) else [] in
+      let pick l =
+        let l = List.map int_of_nat l in
+        let best = ref 0 in
+        List.iteri (fun i v -> let b = List.nth l !best in
+          if st.(v) > st.(b) || (st.(v) = st.(b) && v < b) then best := i) l;
+        nat_of_int !best in
+      (match walk parents pick (nat_of_int (n + 2)) (List.map nat_of_int (ints inc)) with
+       | None -> "fuel"
+       | Some l -> if l = [] then "-" else String.concat "." (List.map (fun v -> string_of_int (int_of_nat v)) l))
+  | ["topo"; dag; entries] ->
+      let d = parse_dag dag in
+      let n = Array.length d in
+      let parents v = let i = int_of_nat v in if i < n then List.map nat_of_int d.(i) else [] in
+      (match topo parents (nat_of_int (4 * n + 8)) (List.map nat_of_int (ints entries)) with
+       | None -> "fuel"
+       | Some l -> if l = [] then "-" else String.concat "." (List.map (fun v -> string_of_int (int_of_nat v)) l))
   | _ -> "EXN bad request"
 let () = serve handle
